@@ -9,6 +9,14 @@ EXPLANATION = ("Edge-kind agreement: the attribute/operation variants for which 
 REF_CONVERTERS = {'convert_unit_ref', 'convert_debug_info_ref'}
 
 
+def _worklist_rescans(g, fn):
+    """the function scans (`operations(..)`) what it pops from a Vec of expressions, i.e. a pushed nested expression is scanned too"""
+    from .. import ctl as CT
+    from ..arms import ArmSummarizer
+    rows = CT.flow_fingerprint(fn, ArmSummarizer(g))
+    return any(r.startswith('operations(') and 'pop()' in r for r in rows)
+
+
 def run_edge_agreement(rep, g):
     rep.rule('X-edges', 'edge-kind agreement: every read::Operation / read::AttributeValue variant whose conversion calls '
              'convert_unit_ref / convert_debug_info_ref (i.e. produces a reference to an entry) is followed by the filter '
@@ -27,7 +35,10 @@ def run_edge_agreement(rep, g):
         follows = 'push' in f['calls']
         nested = 'operations' in calls      # nested expression converted recursively
         key = 'expr-ref|' + v
-        if follows and not nested:
+        if nested and follows and _worklist_rescans(g, fn):
+            rep.ok('X-edges', key, 'conversion converts the nested expression; filter arm pushes it on the work list that the scanning loop pops (%s)' % f['calls'], fn.loc(),
+                   why='nested expression is scanned by the same loop')
+        elif follows and not nested:
             rep.ok('X-edges', key, 'conversion calls %s; filter arm calls %s' % (sorted(calls & REF_CONVERTERS), f['calls']), fn.loc(),
                    why='filter pushes the referenced entry')
         elif nested and 'add_expression_refs' not in f['calls'] and not follows:
